@@ -7,7 +7,7 @@
 From Coq Require Import List NArith Bool.
 From Verif Require Import lib.Quote model.ExSyntax model.ExLexer model.ExParser model.ExPrinter model.ExScanner
   model.ExRefactor model.ExTemplate proofs.ExPrintProofs proofs.ExRoundtrip proofs.ExScannerProofs
-  proofs.ExRefactorProofs proofs.ExC11.
+  proofs.ExRefactorProofs proofs.ExRender proofs.ExC11.
 Import ListNotations.
 Open Scope N_scope.
 
@@ -71,3 +71,36 @@ Theorem c11_eval_preserved_partial : forall (lower : N -> N) ctx e,
   eval_frag lower ctx (norm lower e) = eval_frag lower ctx e.
 Proof. exact eval_preserved_stmt. Qed.
 Print Assumptions c11_eval_preserved_partial.
+
+(* First sentence, on TEXT: for every source text (valid code points) that the lexer and parser models accept, with
+   tree t, IF the printed text is glue-free — glue_free t, a decidable condition on the items Expression.String()
+   writes: every printed token is a lexeme of its kind and the character after it cannot extend it (a NAME is not
+   a keyword and is not followed by a name character, an INTEGER not by a digit or ".digit", a text literal whose
+   value ends in a backslash is not followed by a later quote, "=" "<" ">" are not followed by the character that
+   would make "=>" "<=" ">=", a space is followed by something that is not white space) — THEN lexing the printed
+   text succeeds, parsing it yields exactly norm t, and printing that is the same text (fixed point after one
+   round).  PARTIAL: the side condition is needed (next theorem); it holds e.g. for the repaired `foo.1 .2`
+   (Example glue_free_witness). *)
+Theorem c11_roundtrip_partial : forall (lower : N -> N) (printable : N -> bool) inp ts t,
+  printable 10 = false -> (forall c, lower (lower c) = lower c) -> valid_codepoints inp ->
+  lex inp = LOk ts -> parse_tokens ts = POk t ->
+  glue_free lower printable t = true ->
+  exists ts', lex (print lower printable t) = LOk ts'
+              /\ parse_tokens ts' = POk (norm lower t)
+              /\ print lower printable (norm lower t) = print lower printable t.
+Proof. exact roundtrip_stmt. Qed.
+Print Assumptions c11_roundtrip_partial.
+
+(* The full statement (without glue_free) is refuted by two parseable sources whose printed text is a syntax
+   error: the name U+13A0 (its lower-case form U+AB70 is not a letter of the grammar) and  "a\x5c" & "b"  (the value
+   of the first literal ends in a backslash; printed with a trailing backslash-backslash-quote the TEXT rule reads on
+   to the next quote).  Both are known findings (grammar-rooted). *)
+Theorem c11_roundtrip_refuted :
+  exists (lower : N -> N) (printable : N -> bool) inp1 inp2,
+    printable 10 = false /\ (forall c, lower (lower c) = lower c) /\ valid_codepoints inp1 /\ valid_codepoints inp2 /\
+    (exists ts t, lex inp1 = LOk ts /\ parse_tokens ts = POk t /\
+       exists ts', lex (print lower printable t) = LOk ts' /\ parse_tokens ts' = PSyntax) /\
+    (exists ts t, lex inp2 = LOk ts /\ parse_tokens ts = POk t /\
+       exists ts', lex (print lower printable t) = LOk ts' /\ parse_tokens ts' = PSyntax).
+Proof. exact roundtrip_refuted. Qed.
+Print Assumptions c11_roundtrip_refuted.
